@@ -3,6 +3,8 @@ from checks.generic import standard
 def run(ctx):
     return standard(ctx,
         props=[("Props.C07", ["c07_accept_sound", "c07_final", "c07_evict", "c07_reject_keeps_other", "c07_refresh",
+                              "c07_refusal_any_diagnostic", "c07_refusal_final", "c07_account_state_refused", "c07_diag_sensitive_refuted", "c07_diag_sensitive_masked_by_second_pattern",
+                              "c07_first_pattern_decides", "c07_later_pattern_user_refused",
                               "c07_outage_login_pure", "c07_rows_confirmed", "c07_backend",
                               "c07_old_expired_record_refuted", "c07_old_evict_cache_refuted",
                               "c07_evict_primary_outage_refuted"])],
@@ -12,10 +14,10 @@ def run(ctx):
                "CasesC07.idx"),
         trusted=["symbolic signatures: a stored record verifies iff keymaster's key produced it (go-jose RS256 verification, exercised with attacker-key, edited-payload and alg-none records)",
                  "Argon2 hash comparison = equality of the hashed password (authutil.Argon2CompareHashAndPassword, exercised with real hashes)",
-                 "the directory's answers and the LDAP wire protocol are environment: in-process LDAPS server (vjeantet/ldapserver), 'down' = connections dropped before the TLS handshake, 'erroring' = result codes Busy/Unavailable/OperationsError/Other",
+                 "the directory's answers and the LDAP wire protocol are environment: in-process LDAPS server (vjeantet/ldapserver), 'down' = connections dropped before the TLS handshake, 'erroring' = result codes Busy/Unavailable/OperationsError/Other/UnwillingToPerform/InsufficientAccessRights/InappropriateAuthentication with assorted diagnostics; refusals = result code 49 with no diagnostic, a plain sentence, or Active Directory sub statuses 52e/525/530/531/532/533/701/773/775/57",
                  "clock advances are simulated by re-issuing every stored record with a correspondingly earlier expiry through the state's own signing function (model time = real time + offset)",
                  "storage model of C15 (Model/Storage.v) incl. SQLite transaction semantics"],
-        assumptions=["one bind pattern per server decides (config.go passes exactly one); users of the harness's second pattern are rejected by the first pattern's answer, as in the code",
+        assumptions=[
                      "nobody but keymaster can produce a genuinely signed record (EUF-CMA of the JWS signature)"],
         unproved=["c07_evict holds while the primary can be written; with the primary unreachable at the moment of the rejection the hash survives (c07_evict_primary_outage_refuted, known finding)"],
         timeout=1500)
